@@ -3,6 +3,7 @@
 import JanetModel.Props.C06
 import JanetModel.Ev.Wakeup
 import JanetModel.Ev.Kept
+import JanetModel.Ev.Order
 namespace JanetModel.Props.C06
 open JanetModel.Ev
 
@@ -311,6 +312,105 @@ theorem order_per_giver_handout (limits : Nat → Nat) (as : List Action) (c x y
     show List.Sublist _ (onChan (run currentCfg (World.start limits) as).ghost.pushed c)
     rw [hf]; exact List.sublist_append_left _ _
   exact nodup_pair_order hnd hxy (hyx.trans hpre)
+
+theorem pair_sublist_total {α : Type} {x y : α} (hne : x ≠ y) :
+    ∀ {l : List α}, x ∈ l → y ∈ l → List.Sublist [x, y] l ∨ List.Sublist [y, x] l := by
+  intro l
+  induction l with
+  | nil => intro h; cases h
+  | cons a t ih =>
+    intro hx hy
+    rcases List.mem_cons.mp hx with ex | hx'
+    · rcases List.mem_cons.mp hy with ey | hy'
+      · exact absurd (ex.trans ey.symm) hne
+      · left; subst ex; exact List.Sublist.cons_cons _ (List.singleton_sublist.mpr hy')
+    · rcases List.mem_cons.mp hy with ey | hy'
+      · right; subst ey; exact List.Sublist.cons_cons _ (List.singleton_sublist.mpr hx')
+      · rcases ih hx' hy' with h | h
+        · exact Or.inl (List.Sublist.cons _ h)
+        · exact Or.inr (List.Sublist.cons _ h)
+
+theorem mem_onChan (l : List (Nat × Nat)) (c x : Nat) : x ∈ onChan l c ↔ (c, x) ∈ l := by
+  unfold onChan
+  simp only [List.mem_map, List.mem_filter, beq_iff_eq]
+  constructor
+  · rintro ⟨⟨a, b⟩, ⟨hm, h1⟩, h2⟩; simp only at h1 h2; subst h1; subst h2; exact hm
+  · intro h; exact ⟨(c, x), ⟨h, rfl⟩, rfl⟩
+
+theorem chan_unique {l : List (Nat × Nat)} (hnd : (l.map (·.2)).Nodup) {a b v : Nat} (ha : (a, v) ∈ l) (hb : (b, v) ∈ l) :
+    a = b := by
+  induction l with
+  | nil => cases ha
+  | cons p t ih =>
+    simp only [List.map_cons, List.nodup_cons, List.mem_map, not_exists, not_and] at hnd
+    rcases List.mem_cons.mp ha with ea | ha'
+    · rcases List.mem_cons.mp hb with eb | hb'
+      · have := ea.trans eb.symm; injection this
+      · exact absurd (show (b, v).2 = p.2 by rw [← ea]) (hnd.1 (b, v) hb')
+    · rcases List.mem_cons.mp hb with eb | hb'
+      · exact absurd (show (a, v).2 = p.2 by rw [← eb]) (hnd.1 (a, v) ha')
+      · exact ih hnd.2 ha' hb'
+
+/-- **order_per_giver_taker** - "values exchanged between one giver and one taker on a channel arrive in the order
+    given", on the event log of the model: `pushed` is the log of give events per channel (a value is logged when
+    janet_channel_push_with_lock accepts it, in call order; the give events of ONE giver on `c` are a sublist of c's
+    log), `received` is the log of take results per fiber (a value is logged when an operation of the fiber returns it:
+    `(ev/take c)`, a `[:take c x]` select result).  For EVERY action sequence from the start state (no select naming a
+    channel twice) in which every given value is distinct: if `x` was given on `c` before `y`, and fiber `t` has
+    received both, then `t` received `x` before `y`.
+    Proof: `fifo_per_channel` (c hands out in push order) + `Ev.run_SH` (what one fiber receives, in order, is a sublist
+    of the global hand-out log: a fiber has at most one item in flight and receives it before it can be handed another). -/
+theorem order_per_giver_taker (limits : Nat → Nat) (as : List Action) (hns : ∀ a ∈ as, a.noSelfMatch) (c t x y : Nat) :
+    let w := run currentCfg (World.start limits) as
+    (w.ghost.pushed.map (·.2)).Nodup → List.Sublist [x, y] (onChan w.ghost.pushed c) →
+    x ∈ Rv w t → y ∈ Rv w t → List.Sublist [x, y] (Rv w t) := by
+  intro w hnd hxy hx hy
+  have hS := Ev.run_SH current_good as _ hns (Ev.start_W limits) (Ev.start_SH limits) t
+  have hRH : List.Sublist (Rv w t) (Hv w) := (List.sublist_append_left _ _).trans hS
+  have hPc : (onChan w.ghost.pushed c).Nodup := by
+    unfold onChan
+    exact List.Nodup.sublist (List.Sublist.map _ List.filter_sublist) hnd
+  have hne : x ≠ y := by
+    intro e; subst e
+    have := List.Sublist.nodup hxy hPc
+    simp at this
+  rcases pair_sublist_total hne hx hy with h | h
+  · exact h
+  · exfalso
+    -- [y, x] in t's receipts, hence in the hand-out log, hence in c's hand-out log
+    have hH : List.Sublist [y, x] (w.ghost.handed.map (·.2)) := h.trans hRH
+    obtain ⟨l', hl', hmap⟩ := List.sublist_map_iff.mp hH
+    have hfifo := fun c' => fifo_per_channel limits as c'
+    have hpushedOf : ∀ c' v, (c', v) ∈ w.ghost.handed → (c', v) ∈ w.ghost.pushed := by
+      intro c' v hm
+      have h1 : v ∈ onChan w.ghost.handed c' := (mem_onChan _ _ _).mpr hm
+      have h2 : v ∈ onChan w.ghost.pushed c' := by
+        show v ∈ onChan (run currentCfg (World.start limits) as).ghost.pushed c'
+        rw [hfifo c']; exact List.mem_append_left _ h1
+      exact (mem_onChan _ _ _).mp h2
+    have hxc : (c, x) ∈ w.ghost.pushed := (mem_onChan _ _ _).mp (sublist_pair_mem hxy).1
+    have hyc : (c, y) ∈ w.ghost.pushed := (mem_onChan _ _ _).mp (sublist_pair_mem hxy).2
+    match l', hl', hmap with
+    | [(c1, y'), (c2, x')], hl', hmap =>
+      simp only [List.map_cons, List.map_nil, List.cons.injEq, and_true] at hmap
+      obtain ⟨e1, e2⟩ := hmap
+      subst e1; subst e2
+      have hm1 : (c1, y) ∈ w.ghost.handed := hl'.subset (by simp)
+      have hm2 : (c2, x) ∈ w.ghost.handed := hl'.subset (by simp)
+      have ec1 : c1 = c := chan_unique hnd (hpushedOf _ _ hm1) hyc
+      have ec2 : c2 = c := chan_unique hnd (hpushedOf _ _ hm2) hxc
+      rw [ec1, ec2] at hl'
+      have : List.Sublist [y, x] (onChan w.ghost.handed c) := by
+        unfold onChan
+        have := List.Sublist.map (·.2) (List.Sublist.filter (fun p : Nat × Nat => p.1 == c) hl')
+        simpa using this
+      exact order_per_giver_handout limits as c x y hPc hxy this
+
+/-- non-vacuity: two values from one giver to one taker (capacity 2, both buffered, then taken) -/
+example :
+    let w := run Cfg.good (World.start fun _ => 2)
+      [.timers, .runTask, .go 1, .give 0 7, .give 0 8, .finish false, .runTask, .take 0, .runTask, .take 0, .runTask]
+    onChan w.ghost.pushed 0 = [7, 8] ∧ Rv w 1 = [7, 8] := by decide
 
 /-- `noSelfMatch` is needed: `(ev/select c0 [c0 5] c0)` alone in a fiber is matched with itself in the registration
     loop.  The fiber is then suspended WITH a live wake-up task AND a current registration in c0's read queue (made after
